@@ -15,6 +15,8 @@ Decides, from the MIR of the current tree:
   SEQKIND    per-kind behaviour of the seq/tuple helper (duration 3x4 LE, fixed countdown, buffered bytes)
   DECSCALE   decimal::serialize compares the rescaled scale with the schema's
   DESCEND    DatumSerializer constructions take their node from the reviewed origins
+  FREEZEMAP  the node kind dispatched on is built at freeze from a logical type only over the primitive the spec lets
+             it annotate (duration: fixed of size 12 exactly), else from the plain type (shared with C01, C03)
 It does NOT decide byte equality with a reference encoder.
 """
 from ..lib import *
@@ -799,7 +801,10 @@ def descend_rule(ctx):
                                 p1 = op_place(t2['args'][1])
                                 if p1 is not None and p1['l'] == dst:
                                     vo = origin(b, t2['args'][0])
-                                    nm = {b.local_name(a[1]) for a in vo.atoms if a[0] == 'param'}
+                                    # which parameter of the serde method is it (by position, not by its spelling)
+                                    roles = {'serialize_entry': {2: 'key', 3: 'value'}, 'serialize_key': {2: 'key'}, 'serialize_value': {2: 'value'},
+                                             'serialize_field': {2: 'key', 3: 'value'}, 'serialize_element': {2: 'value'}}.get(b.name, {})
+                                    nm = {roles.get(a[1]) for a in vo.atoms if a[0] == 'param'}
                                     role = 'key' if nm == {'key'} else 'value' if nm == {'value'} else None
                         if aggs:
                             ok = aggs == {'String'} and not o.params() and role == 'key'
